@@ -158,7 +158,7 @@ CHECKS = {
         design_ref='DESIGN.md section 4 C02',
         note='bounded; assumed contract on elfutils (props/c02/dw_model*.h: dwarf_child, dwarf_siblingof, dwarf_offdie, dwarf_dieoffset, dwarf_nextcu on a '
              'well-formed section; error returns not modelled). SLICE: the DIE producers of builtin-dw.cc, attributes, labels/forms, root_cache, '
-             are not covered. Also serves the parent/child agreement of C05 for the raw view, not claimed there.',
+             'are not covered. Also serves the parent/child agreement of C05 for the raw view, not claimed there.',
         technique='bounded unwinding (CBMC, unwinding assertions) of C lowered from the real C++ per run, against a forest model of libdw',
     ),
     'C03': dict(
